@@ -22,6 +22,7 @@ import (
 	"fmt"
 	"io"
 	"sort"
+	"strings"
 	"time"
 
 	"github.com/containerd/containerd/v2/core/content"
@@ -267,6 +268,9 @@ func layerLossLessConvertFunc(compressor estargz.Compressor, chunkSize int, minC
 			} else {
 				newDesc.MediaType += "+gzip"
 			}
+		} else if mt, ok := strings.CutSuffix(newDesc.MediaType, "+zstd"); ok {
+			// The source is zstd-compressed but the blob written here is gzip-compressed.
+			newDesc.MediaType = mt + "+gzip"
 		}
 		newDesc.Digest = w.Digest()
 		newDesc.Size = n
